@@ -77,7 +77,7 @@ func c11Build(obj, dir string) (*c11Base, error) {
 		}
 		b.dev, b.size, b.sect, b.fsObj = v.Dev, v.Size, v.Sector, true
 		b.dev.SetSize(b.size)
-	case "gpt", "mbr":
+	case "gpt", "mbr", "gptbad":
 		size := int64(100 << 20)
 		d := memdev.New(size)
 		dk, err := diskfs.OpenBackend(file.New(d, false), diskfs.WithOpenMode(diskfs.ReadWrite))
@@ -93,6 +93,14 @@ func c11Build(obj, dir string) (*c11Base, error) {
 		}
 		if err := fsx.Populate(f, c11Entries(false)); err != nil {
 			return nil, err
+		}
+		if obj == "gptbad" {
+			// one byte of the primary partition array (second entry's name): its CRC no longer matches
+			x := d.Bytes(1024+128+60, 1)
+			d.Poke(1024+128+60, []byte{x[0] ^ 0x41})
+			if _, err := diskfs.OpenBackend(file.New(d, true)); err != nil {
+				return nil, fmt.Errorf("damaged-primary GPT cannot be opened at all: %w", err)
+			}
 		}
 		b.dev, b.size = d, size
 	default:
@@ -128,7 +136,7 @@ func c11Table(kind string, alt bool) partition.Table {
 		e1 -= 2048
 		s2 += 4096
 	}
-	if kind == "gpt" {
+	if kind == "gpt" || kind == "gptbad" {
 		return &gpt.Table{LogicalSectorSize: 512, PhysicalSectorSize: 512, ProtectiveMBR: true, Partitions: []*gpt.Partition{
 			{Index: 1, Start: s1, End: e1, Type: gpt.MicrosoftBasicData, Name: "one"}, {Index: 2, Start: s2, End: e2, Type: gpt.LinuxFilesystem, Name: "two"}}}
 	}
@@ -432,7 +440,7 @@ func C11(c *core.Ctx) {
 	defer os.RemoveAll(work)
 	bases := map[string]*c11Base{}
 	baseSHA := map[string]string{}
-	for _, o := range []string{"fat12", "fat16", "fat32", "ext4", "iso", "squashfs", "gpt", "mbr"} {
+	for _, o := range []string{"fat12", "fat16", "fat32", "ext4", "iso", "squashfs", "gpt", "mbr", "gptbad"} {
 		b, err := c11Build(o, work)
 		if err != nil {
 			c.Broken("base %s: %v", o, err)
@@ -456,6 +464,15 @@ func C11(c *core.Ctx) {
 		defer o.done()
 		view := c11View(o)
 		var evs []map[string]any
+		// opening the object and projecting it are reading calls too
+		if o.dev != nil {
+			if n := memdev.WriteAttempts(o.dev.Log()); n > 0 {
+				evs = append(evs, map[string]any{"obj": s.Obj, "route": s.Route, "op": "GetPartitionTable", "seq": []string{"<open>"}, "step": -1, "res": "ok", "writes": n, "changed": o.dev.SHA(0, o.dev.Size()) != b.dev.SHA(0, b.dev.Size()), "viewsame": true, "at_open": true})
+				if b.fsObj {
+					evs[0]["op"] = "ReadDirRoot"
+				}
+			}
+		}
 		for k, op := range s.Ops {
 			ev := map[string]any{"obj": s.Obj, "route": s.Route, "op": op, "seq": s.Ops, "step": k, "writes": 0, "changed": false}
 			var before [32]byte
